@@ -20,6 +20,11 @@ from harness.fw import REPO, VERIF, Check, Driver
 
 RES = {"perm": "aosp_permissions", "map": "api_permission_mappings"}
 
+# hand-modelled functions (normalised-AST hashes in gen/pins.json; a change escalates the search, no verdict)
+PINS = [("androguard/core/api_specific_resources/__init__.py", "load_permissions"),
+        ("androguard/core/api_specific_resources/__init__.py", "load_permission_mappings"),
+        ("androguard/core/androconf.py", "load_api_specific_resource_module")]
+
 
 class Real:
     def __init__(self):
@@ -138,10 +143,10 @@ def requests(ck: Check):
     extra = set()
     for k in range(7, 70, 3):
         extra |= {2 ** k, -(2 ** k), 2 ** k - 1}
-    for _ in range(60 if ck.quick else 3000):
+    for _ in range(60 if ck.quick and not getattr(ck, 'escalated', False) else 3000):
         extra.add(ck.rng.randrange(-10 ** 6, 10 ** 6))
         extra.add(ck.rng.randrange(-150, 250))
-    if not ck.quick:
+    if not ck.quick or getattr(ck, 'escalated', False):
         extra |= set(range(-1000, 1001))
     ints += sorted(extra - set(ints))
     out = [(res, None) for res in RES]
@@ -168,6 +173,7 @@ def check_case(ck, real, rule, res, api, record=True):
 
 
 def run(ck: Check):
+    ck.pins_changed(PINS)
     ck.run_gen("apilevels")
     ck.prove(exes=["drv_C39"])
     real = Real()
